@@ -61,8 +61,8 @@ CLAIMED = {
    technique="Lean 4 proof (loop with measure, cap-independence) + correspondence on sequential simnet",
    design="5/C11"),
  'C12': dict(
-   text="Lean transition system of the write path (user threads: queued/forced writes, graceful/immediate disconnect; networking thread's write loop with caps as parameters) at the granularity of lock, queue, socket-send, interrupt and select operations; invariant proved for EVERY program set and EVERY schedule: only the lock holder is inside a frame, the wire is whole duplicate-free frames plus at most the holder's open length prefix, issued = sent + in-flight + queued + failed (disjoint), per-thread FIFO of queued packets, a graceful disconnect flushes everything queued at its lock acquisition then closes, nothing is sent after the close. Trace refinement: the real code runs on real threads under a baton scheduler yielding at exactly those operations; the executed schedule replayed through the model must give the identical event log, wire and final state (500 random walks quick; systematic enumeration with preemption bound + 6000 walks thorough), plain/compressed/encrypted transports; oracle parses the server-side byte stream independently; bulk (>300 queued) and re-entrant outgoing-listener scenarios. Byte level (Props/C12Bytes = C12 o C01 o C18): for all programs, schedules, thresholds, lawful zlib, cipher and read segmentation the peer's read_packet decodes from the wire BYTES exactly the packets sent, once each, per-thread FIFO; each packet's two send arguments are compared with the Lean frameSends.",
-   note="Atomicity of deque/attribute operations is the GIL's; preemption between yield points assumed unobservable (all shared state is reached through them); the cipher-swap window in LoginReactor is not claimed; the liveness half of the final-state theorem is _partial.",
+   text="Lean transition system of the write path (user threads: queued/forced writes, graceful/immediate disconnect; networking thread's write loop with caps as parameters) at the granularity of lock, queue, socket-send, interrupt and select operations; invariant proved for EVERY program set and EVERY schedule: only the lock holder is inside a frame, the wire is whole duplicate-free frames plus at most the holder's open length prefix, issued = sent + in-flight + queued + failed (disjoint), per-thread FIFO of queued packets, a graceful disconnect flushes everything queued at its lock acquisition then closes, nothing is sent after the close. Trace refinement: the real code runs on real threads under a baton scheduler yielding at exactly those operations; the executed schedule replayed through the model must give the identical event log, wire and final state (500 random walks quick; systematic enumeration with preemption bound + 6000 walks thorough), plain/compressed/encrypted transports; oracle parses the server-side byte stream independently; bulk (>300 queued) and re-entrant outgoing-listener scenarios. Byte level (Props/C12Bytes = C12 o C01 o C18): for all programs, schedules, thresholds, lawful zlib, cipher and read segmentation the peer's read_packet decodes from the wire BYTES exactly the packets sent, once each, per-thread FIFO; each packet's two send arguments are compared with the Lean frameSends. Final states (Props/C12Final): over the event log, every packet of a finished run is sent whole, or queued after the closing graceful disconnect's last empty-queue observation (resp. queued at / after an immediate one's lock acquisition), or a forced write entered after the close; a graceful disconnect sends everything appended before its lock acquisition; nothing is sent or popped from an immediate disconnect's acquisition on.",
+   note="Atomicity of deque/attribute operations is the GIL's; preemption between yield points assumed unobservable (all shared state is reached through them); the cipher-swap window in LoginReactor is not claimed; the timing half of the final-state theorem is proved in Props/C12Final (the _partial theorem is kept beside it).",
    technique="Lean 4 proof (inductive invariant over all schedules) + trace refinement on a deterministic scheduler",
    design="5/C12"),
  'C13': dict(
